@@ -954,6 +954,8 @@ class Normalizer:
             return ZERO  # np.full(n, 0 / False) == np.zeros(n)
         if op == "eye":
             return P_atom(EYE)
+        if op == "astype_dyn" and len(a) >= 1 and isinstance(a[0], Term) and (a[0].op == "zeros" or _is_zero_t(a[0])):
+            return self.nf(a[0])  # zeros in whatever dtype are zeros
         if op == "dg":
             p = self.nf(a[0])
             chain, extra = _merge_dg((A("dg", p),))
